@@ -129,6 +129,8 @@ pub fn run(p: &Params) -> Run {
     }
     let env0 = gen_env(&mut rng);
     crate::c03::boundary_cases(&mut run, &env0, p.tier_thorough);
+    // every function × every argument type and its boundary values (pow beyond u32, abs at MIN, out-of-range date parts)
+    crate::c03func::function_cases(&mut run, &mut rng, p.tier_thorough);
     // statement level with extreme inputs: correspondence (text format) ...
     let opts = QueryOpts { allow_limit: true, allow_distinct: true, allow_join: false, aggregate: None };
     for _ in 0..p.n(800, 30_000) {
